@@ -53,7 +53,9 @@ type session struct {
 	stateTimer *internal.EventTimer
 	peerTimer  *internal.EventTimer
 	sentReset  bool
-	stopOnce   sync.Once
+	// logonNotified is set when the application has been told of a logon and not yet of the logout.
+	logonNotified bool
+	stopOnce      sync.Once
 
 	targetDefaultApplVerID string
 
@@ -591,6 +593,7 @@ func (s *session) handleLogon(msg *Message) error {
 	s.sentReset = false
 
 	s.peerTimer.Reset(time.Duration(float64(1.2) * float64(s.HeartBtInt)))
+	s.logonNotified = true
 	s.application.OnLogon(s.sessionID)
 
 	// Evaluate tag 789 to see if we end up with an implied gapfill/resend.
